@@ -78,6 +78,24 @@ def scenarios():
         "step_add_": lambda: torch.tensor(0, dtype=torch.int64).add_(1), "step_item_mod": lambda: torch.tensor(torch.tensor(5, dtype=torch.int64).item() % 2),
         "lr_tensor": lambda: torch.tensor(0.125, dtype=torch.float), "to_same_dtype_is_self": lambda: torch.tensor(float((lambda t: t.to(dtype=torch.float32) is t)(T([1.0])))),
         "to_other_dtype_copies": lambda: torch.tensor(float((lambda t: t.to(dtype=torch.float64) is t)(T([1.0])))),
+        # second batch of API (refactorings / alternative formulations may use it)
+        "m_diag_vec": lambda: T([1.0, 2.0]).diag(), "m_diag_mat": lambda: T([[1.0, 2.0], [3.0, 4.0]]).diag(), "allclose_t": lambda: torch.tensor(float(torch.allclose(T([1.0, 2.0]), T([1.0, 2.0 + 1e-7])))),
+        "allclose_f": lambda: torch.tensor(float(torch.allclose(T([[1.0, 1e-3], [1e-3, 2.0]]), T([1.0, 2.0]).diag()))), "isclose": lambda: torch.isclose(T([1.0, 2.0, 0.0]), T([1.0, 2.1, 1e-9])).to(torch.float32),
+        "clamp": lambda: T([-1.0, 0.5, 3.0]).clamp(min=0.0, max=1.0), "clamp_min": lambda: torch.clamp(T([-1.0, 0.5]), min=0.25), "clamp_inplace": lambda: T([-1.0, 0.5, 3.0]).clamp_(max=1.0),
+        "sign": lambda: torch.sign(T([-2.0, 0.0, 3.0])), "argsort_desc": lambda: torch.argsort(T([3.0, 1.0, 2.0]), descending=True), "argsort_stable": lambda: T([2.0, 1.0, 2.0, 1.0]).argsort(stable=True),
+        "sort_vals": lambda: torch.sort(T([3.0, 1.0, 2.0])).values, "sort_idx": lambda: T([3.0, 1.0, 2.0]).sort(descending=True).indices, "argmax": lambda: T([[1.0, 5.0], [3.0, 2.0]]).argmax(),
+        "argmin": lambda: torch.argmin(T([4.0, 1.0, 3.0])), "amax_dim": lambda: A().amax(dim=1), "amin": lambda: A().amin(), "prod": lambda: A().prod(), "prod_dim": lambda: torch.prod(A(), dim=0),
+        "cumsum": lambda: torch.cumsum(A(), dim=1), "nonzero": lambda: torch.nonzero(T([0.0, 2.0, 0.0, 3.0])), "flip": lambda: torch.flip(A(), dims=(1,)), "chunk": lambda: torch.chunk(T([1.0, 2.0, 3.0, 4.0, 5.0]), 2)[1],
+        "index_select": lambda: torch.index_select(A(), 1, torch.tensor([2, 0])), "masked_fill": lambda: A().masked_fill(A() > 3.0, -1.0), "expand": lambda: T([[1.0], [2.0]]).expand(2, 3),
+        "expand_m1": lambda: T([[1.0], [2.0]]).expand(-1, 2), "repeat": lambda: T([1.0, 2.0]).repeat(2, 2), "unflatten": lambda: T([1.0, 2.0, 3.0, 4.0, 5.0, 6.0]).unflatten(0, (2, 3)),
+        "view_as": lambda: T([1.0, 2.0, 3.0, 4.0, 5.0, 6.0]).view_as(A()), "type_as": lambda: T([1.0]).type_as(T([1.0], torch.float64)), "new_ones": lambda: T([1.0], torch.float64).new_ones((2,)),
+        "new_full": lambda: T([1.0], torch.bfloat16).new_full((2,), 3.0), "mT": lambda: A().mT, "multi_dot": lambda: torch.linalg.multi_dot([A(), A().T, T([[1.0], [2.0]])]), "mv": lambda: torch.mv(A(), T([1.0, 0.0, 2.0])),
+        "logical_not": lambda: torch.logical_not(A() > 3.0).to(torch.float32), "logical_and": lambda: torch.logical_and(A() > 1.0, A() < 5.0).to(torch.float32), "ge_method": lambda: A().ge(3.0).to(torch.float32),
+        "select": lambda: A().select(1, 2), "unbind": lambda: A().unbind(0)[1], "foreach_sub": lambda: torch._foreach_sub([T([3.0, 4.0])], [T([1.0, 1.0])], alpha=0.5)[0], "foreach_neg": lambda: torch._foreach_neg([T([3.0, -4.0])])[0],
+        "foreach_abs": lambda: torch._foreach_abs([T([3.0, -4.0])])[0], "foreach_reciprocal": lambda: torch._foreach_reciprocal([T([2.0, -4.0])])[0], "foreach_pow": lambda: torch._foreach_pow([T([2.0, 3.0])], 2)[0],
+        "foreach_addcmul": lambda: torch._foreach_addcmul([T([1.0, 1.0])], [T([2.0, 3.0])], [T([4.0, 5.0])], value=0.5)[0], "foreach_addcdiv": lambda: torch._foreach_addcdiv([T([1.0, 1.0])], [T([2.0, 3.0])], [T([4.0, 6.0])], value=2.0)[0],
+        "foreach_maximum": lambda: torch._foreach_maximum([T([1.0, 5.0])], [T([2.0, 3.0])])[0], "foreach_clamp_min": lambda: torch._foreach_clamp_min([T([1.0, 5.0])], 2.0)[0],
+        "multiply_alias": lambda: torch.multiply(A(), 2.0), "true_divide": lambda: torch.true_divide(A(), 2.0), "abs_inplace": lambda: T([-1.0, 2.0]).abs_(), "eye_argsort_cols": lambda: torch.eye(3)[:, T([3.0, 1.0, 2.0]).argsort(stable=True)],
     }.items():
         rec(nm, lambda f=f: _desc(f()))
     # --- errors
@@ -103,6 +121,8 @@ def scenarios():
         "view": lambda t: t.view(3, 2), "view_minus1": lambda t: t.view(-1), "split_dim1": lambda t: torch.split(t, 2, dim=1), "narrow": lambda t: t.narrow(1, 1, 2), "permute": lambda t: t.permute(1, 0),
         "T": lambda t: t.T, "detach": lambda t: t.detach(), "unsqueeze": lambda t: t.unsqueeze(0), "clone": lambda t: t.clone(), "to_same": lambda t: t.to(dtype=torch.float32), "to_f64": lambda t: t.to(dtype=torch.float64),
         "getitem_row": lambda t: t[0], "diagonal": lambda t: torch.diagonal(t[:, :2]), "div_scalar": lambda t: t / 2.0, "foreach_lerp": lambda t: torch._foreach_lerp([t], [t * 2], weight=0.5),
+        "select": lambda t: t.select(0, 1), "unbind": lambda t: t.unbind(1), "flip": lambda t: t.flip((0,)), "clamp": lambda t: t.clamp(min=2.0), "expand_as_self": lambda t: t.expand(2, 3), "mT": lambda t: t.mT,
+        "chunk": lambda t: t.chunk(2, dim=1), "masked_fill": lambda t: t.masked_fill(t > 2.0, 0.0), "index_select": lambda t: t.index_select(0, torch.tensor([1])), "diag_method": lambda t: t[:, :2].diag(),
         "foreach_div": lambda t: torch._foreach_div([t], 2.0), "tensordot": lambda t: torch.tensordot(t, torch.eye(2), dims=([0], [0])), "split_then_view": lambda t: torch.split(t.view(-1), [2, 4])[1].view(2, 2),
     }.items():
         rec("alias_" + nm, lambda op=op: alias(A, op))
